@@ -104,7 +104,8 @@ pub fn d_i128(_t: bool) -> Vec<i128> {
     vec![0, 1, -1, 12, 2, -12, 112]
 }
 pub fn d_f64(_t: bool) -> Vec<f64> {
-    vec![0.0, 1.0, 1.5, f64::INFINITY, -1.0, 10.0, 0.1, 11.5]
+    // incl. pairs that agree to six (and to fifteen) decimals, and magnitudes a fixed-precision rendering rounds to zero
+    vec![0.0, 1.0, 1.5, f64::INFINITY, -1.0, 10.0, 0.1, 11.5, 0.1234567, 0.1234568, 3e-7, 4.0000001, 4.0000002, 1e-300, 0.30000000000000004, 0.3]
 }
 pub fn d_bool(_t: bool) -> Vec<bool> {
     vec![false, true]
@@ -257,7 +258,7 @@ pub fn d_isize(_t: bool) -> Vec<isize> {
     vec![0, 1, -1, 12, -12, 2]
 }
 pub fn d_f32(_t: bool) -> Vec<f32> {
-    vec![0.0, 1.0, 1.5, 10.0, 0.1, -1.0, f32::INFINITY]
+    vec![0.0, 1.0, 1.5, 10.0, 0.1, -1.0, f32::INFINITY, 0.1234567, 0.1234568, 3e-7, 1e-30]
 }
 pub fn d_triple(_t: bool) -> Vec<(u8, u8, u8)> {
     vec![(0, 0, 0), (1, 2, 3), (12, 3, 1), (1, 23, 1), (1, 2, 31), (12, 31, 0)]
